@@ -62,17 +62,30 @@ type Query struct {
 	Facts bool
 	// InitFacts seeds the fact state (key -> constant it equals).
 	InitEq map[string]constant.Value
+	// Deep > 0 makes the search interprocedural: static calls of module functions are entered (at most Deep
+	// frames, no recursion) and left again through their returns; the constant boolean / nil-or-error result of
+	// the path taken through the callee decides the caller's branches on that result.
+	Deep int
+	// Descend filters the callees that are entered (nil = every module function with a body).
+	Descend func(g *ssa.Function) bool
+	// TargetReturn makes a return of the root function a target depending on the value it returns on this path:
+	// val resolves a result operand to a known boolean (constants, short-circuit phis, results of calls the path went through).
+	TargetReturn func(r *ssa.Return, val func(v ssa.Value) (known bool, b bool)) bool
 }
 
 type factState struct {
-	eq  map[string]string          // key -> constant (ExactString) it equals
-	neq map[string]map[string]bool // key -> constants excluded
+	eq   map[string]string          // key -> constant (ExactString) it equals
+	neq  map[string]map[string]bool // key -> constants excluded
+	rets map[string]string          // call result key -> "true" | "false" | "err" | "nil" (interprocedural search)
 }
 
 func (s *factState) clone() *factState {
-	n := &factState{eq: map[string]string{}, neq: map[string]map[string]bool{}}
+	n := &factState{eq: map[string]string{}, neq: map[string]map[string]bool{}, rets: map[string]string{}}
 	for k, v := range s.eq {
 		n.eq[k] = v
+	}
+	for k, v := range s.rets {
+		n.rets[k] = v
 	}
 	for k, m := range s.neq {
 		mm := map[string]bool{}
@@ -91,6 +104,9 @@ func (s *factState) String() string {
 	var parts []string
 	for k, v := range s.eq {
 		parts = append(parts, k+"=="+v)
+	}
+	for k, v := range s.rets {
+		parts = append(parts, k+"=>"+v)
 	}
 	for k, m := range s.neq {
 		var cs []string
@@ -214,12 +230,169 @@ type searchNode struct {
 	st     *factState
 	parent *searchNode
 	pred   *ssa.BasicBlock // block the path arrived from (nil at the start)
+	fr     *frame          // call stack of the interprocedural search (nil in the root function)
+}
+
+type frame struct {
+	call       *ssa.Call
+	callee     *ssa.Function
+	parent     *frame
+	saved      *factState
+	callerPred *ssa.BasicBlock
+	depth      int
+}
+
+func (f *frame) sig() string {
+	if f == nil {
+		return ""
+	}
+	var sb strings.Builder
+	for x := f; x != nil; x = x.parent {
+		sb.WriteString(FuncKey(x.call.Parent()))
+		sb.WriteString(":")
+		sb.WriteString(x.call.Name())
+		sb.WriteString(">")
+	}
+	return sb.String()
+}
+
+func (f *frame) onStack(g *ssa.Function) bool {
+	for x := f; x != nil; x = x.parent {
+		if x.callee == g {
+			return true
+		}
+	}
+	return false
+}
+
+func retKey(call *ssa.Call, idx int) string {
+	return fmt.Sprintf("%s:%s#%d", FuncKey(call.Parent()), call.Name(), idx)
+}
+
+// translateFacts maps the caller's facts about argument access paths to the callee's parameter access paths.
+func translateFacts(cur *factState, call *ssa.Call, g *ssa.Function) *factState {
+	n := &factState{eq: map[string]string{}, neq: map[string]map[string]bool{}, rets: map[string]string{}}
+	for k, v := range cur.rets {
+		n.rets[k] = v
+	}
+	args := CallArgs(&call.Call)
+	mapKey := func(k string) (string, bool) {
+		pre := ""
+		if strings.HasPrefix(k, "len:") {
+			pre, k = "len:", k[4:]
+		}
+		if strings.HasPrefix(k, "global:") {
+			return pre + k, true
+		}
+		for i, a := range args {
+			if i >= len(g.Params) {
+				break
+			}
+			aap := AP(a)
+			if strings.HasPrefix(aap, "?") || strings.HasPrefix(aap, "const:") {
+				continue
+			}
+			if APHasPrefix(k, aap) {
+				return pre + AP(g.Params[i]) + k[len(aap):], true
+			}
+		}
+		return "", false
+	}
+	for k, v := range cur.eq {
+		if nk, ok := mapKey(k); ok {
+			n.eq[nk] = v
+		}
+	}
+	for k, m := range cur.neq {
+		if nk, ok := mapKey(k); ok {
+			mm := map[string]bool{}
+			for c := range m {
+				mm[c] = true
+			}
+			n.neq[nk] = mm
+		}
+	}
+	return n
+}
+
+// classifyReturn records what the path through the callee returned: constant booleans and nil / non-nil errors.
+func classifyReturn(st *factState, call *ssa.Call, r *ssa.Return, pred *ssa.BasicBlock) {
+	g := r.Parent()
+	ei := ErrorResultIndex(g)
+	for j := range r.Results {
+		v := unspill(r, r.Results[j])
+		if phi, ok := v.(*ssa.Phi); ok && phi.Block() == r.Block() && pred != nil {
+			for i, p := range phi.Block().Preds {
+				if p == pred {
+					v = phi.Edges[i]
+				}
+			}
+		}
+		key := retKey(call, j)
+		delete(st.rets, key)
+		if k, ok := v.(*ssa.Const); ok {
+			if k.Value == nil {
+				if j == ei {
+					st.rets[key] = "nil"
+				}
+			} else if k.Value.Kind() == constant.Bool {
+				st.rets[key] = k.Value.ExactString()
+			}
+		}
+		if j == ei && IsErrorReturn(r) {
+			st.rets[key] = "err"
+		}
+	}
+}
+
+// retCond resolves a branch condition on the result of a call the path has been through.
+func retCond(st *factState, cond ssa.Value) (known bool, val bool) {
+	neg := false
+	for {
+		u, ok := cond.(*ssa.UnOp)
+		if !ok || u.Op != token.NOT {
+			break
+		}
+		neg = !neg
+		cond = u.X
+	}
+	keyOf := func(v ssa.Value) (string, bool) {
+		switch x := v.(type) {
+		case *ssa.Call:
+			return retKey(x, 0), true
+		case *ssa.Extract:
+			if c, ok := x.Tuple.(*ssa.Call); ok {
+				return retKey(c, x.Index), true
+			}
+		}
+		return "", false
+	}
+	if k, ok := keyOf(cond); ok {
+		switch st.rets[k] {
+		case "true":
+			return true, !neg
+		case "false":
+			return true, neg
+		}
+		return false, false
+	}
+	if x, c, eq, ok := CondAtom(cond); ok && c.Value == nil {
+		if k, ok := keyOf(x); ok {
+			switch st.rets[k] {
+			case "err": // x != nil
+				return true, (!eq) != neg
+			case "nil":
+				return true, eq != neg
+			}
+		}
+	}
+	return false, false
 }
 
 // Search looks for a path from `from`; it returns the witness (list of
 // points at block granularity plus the final point) or nil.
 func (q *Query) Search(from Point) []Point {
-	st := &factState{eq: map[string]string{}, neq: map[string]map[string]bool{}}
+	st := &factState{eq: map[string]string{}, neq: map[string]map[string]bool{}, rets: map[string]string{}}
 	for k, v := range q.InitEq {
 		st.eq[k] = v.ExactString()
 	}
@@ -234,7 +407,7 @@ func (q *Query) Search(from Point) []Point {
 				predIdx = n.pred.Index
 			}
 		}
-		key := fmt.Sprintf("%d.%d.%d|%s", n.pt.B.Index, n.pt.I, predIdx, n.st.String())
+		key := fmt.Sprintf("%s%s.%d.%d.%d|%s", n.fr.sig(), FuncKey(n.pt.B.Parent()), n.pt.B.Index, n.pt.I, predIdx, n.st.String())
 		if visited[key] {
 			continue
 		}
@@ -245,8 +418,43 @@ func (q *Query) Search(from Point) []Point {
 		cur := n.st
 		for i := n.pt.I; i < len(b.Instrs); i++ {
 			in := b.Instrs[i]
+			if n.fr != nil {
+				if r, isRet := in.(*ssa.Return); isRet {
+					// leave the callee: continue after the call site with the caller's facts and the classified result
+					ns := n.fr.saved.clone()
+					for k, v := range cur.rets {
+						ns.rets[k] = v
+					}
+					classifyReturn(ns, n.fr.call, r, n.pred)
+					stack = append(stack, &searchNode{pt: After(n.fr.call), st: ns, parent: n, pred: n.fr.callerPred, fr: n.fr.parent})
+					blocked = true
+					break
+				}
+			}
 			if q.Target != nil && q.Target(in) {
 				return witness(n, Point{b, i})
+			}
+			if q.TargetReturn != nil && n.fr == nil {
+				if r, isRet := in.(*ssa.Return); isRet {
+					pred := n.pred
+					val := func(v ssa.Value) (bool, bool) {
+						v = unspill(r, v)
+						if phi, ok := v.(*ssa.Phi); ok && phi.Block() == r.Block() && pred != nil && i == len(b.Instrs)-1 {
+							for pi, p := range phi.Block().Preds {
+								if p == pred {
+									v = phi.Edges[pi]
+								}
+							}
+						}
+						if k, ok := v.(*ssa.Const); ok && k.Value != nil && k.Value.Kind() == constant.Bool {
+							return true, k.Value.ExactString() == "true"
+						}
+						return retCond(cur, v)
+					}
+					if q.TargetReturn(r, val) {
+						return witness(n, Point{b, i})
+					}
+				}
 			}
 			if q.Block != nil && q.Block(in) {
 				blocked = true
@@ -255,9 +463,23 @@ func (q *Query) Search(from Point) []Point {
 			if q.Facts {
 				cur = killFacts(cur, in)
 			}
+			if q.Deep > 0 {
+				if call, isCall := in.(*ssa.Call); isCall {
+					depth := 0
+					if n.fr != nil {
+						depth = n.fr.depth
+					}
+					if g := StaticCallee(&call.Call); g != nil && depth < q.Deep && InModule(g) && len(g.Blocks) > 0 && g != b.Parent() && !n.fr.onStack(g) && (q.Descend == nil || q.Descend(g)) {
+						ns := translateFacts(cur, call, g)
+						stack = append(stack, &searchNode{pt: Entry(g), st: ns, parent: n, fr: &frame{call: call, callee: g, parent: n.fr, saved: cur, callerPred: n.pred, depth: depth + 1}})
+						blocked = true
+						break
+					}
+				}
+			}
 		}
 		if cur != n.st {
-			n = &searchNode{pt: n.pt, st: cur, parent: n.parent, pred: n.pred}
+			n = &searchNode{pt: n.pt, st: cur, parent: n.parent, pred: n.pred, fr: n.fr}
 		}
 		if blocked {
 			continue
@@ -272,6 +494,9 @@ func (q *Query) Search(from Point) []Point {
 			if isIf {
 				want := si == 0
 				pc, known, kval := pathCond(ifi, n.pred)
+				if !known && len(n.st.rets) > 0 {
+					known, kval = retCond(n.st, pc)
+				}
 				if known && kval != want {
 					continue
 				}
@@ -311,9 +536,9 @@ func (q *Query) Search(from Point) []Point {
 				continue
 			}
 			if q.TargetEdge != nil && q.TargetEdge(b, si) {
-				return witness(&searchNode{pt: Point{succ, 0}, st: st2, parent: n, pred: b}, Point{succ, 0})
+				return witness(&searchNode{pt: Point{succ, 0}, st: st2, parent: n, pred: b, fr: n.fr}, Point{succ, 0})
 			}
-			stack = append(stack, &searchNode{pt: Point{succ, 0}, st: st2, parent: n, pred: b})
+			stack = append(stack, &searchNode{pt: Point{succ, 0}, st: st2, parent: n, pred: b, fr: n.fr})
 		}
 	}
 	return nil
@@ -343,6 +568,9 @@ func (p *Prog) PathString(path []Point) string {
 			pos = p.InstrPos(in)
 		}
 		s := fmt.Sprintf("b%d(%s)", pt.B.Index, pos)
+		if len(path) > 0 && pt.B.Parent() != path[0].B.Parent() {
+			s = FuncKey(pt.B.Parent()) + ":" + s
+		}
 		if s != lastLine {
 			parts = append(parts, s)
 		}
@@ -711,4 +939,41 @@ func pathCond(ifi *ssa.If, pred *ssa.BasicBlock) (cond ssa.Value, known bool, va
 		cond = e
 	}
 	return cond, false, false
+}
+
+// DominatedByEdgeDeep: from the entry of every root, every (interprocedural, depth-bounded) path to `in` passes an
+// edge accepted by pred.  With no roots the instruction's own function is the root.
+func DominatedByEdgeDeep(roots []*ssa.Function, in ssa.Instruction, pred func(b *ssa.BasicBlock, succ int) bool, deep int) bool {
+	if len(roots) == 0 {
+		roots = []*ssa.Function{in.Parent()}
+	}
+	for _, r := range roots {
+		d := deep
+		if r == in.Parent() {
+			d = 0
+		}
+		q := &Query{Target: func(x ssa.Instruction) bool { return x == in }, BlockEdge: pred, Deep: d}
+		if q.Search(Entry(r)) != nil {
+			return false
+		}
+	}
+	return true
+}
+
+// DominatedByInstrDeep: every path from a root's entry to `in` passes an instruction accepted by pred.
+func DominatedByInstrDeep(roots []*ssa.Function, in ssa.Instruction, pred func(x ssa.Instruction) bool, deep int) bool {
+	if len(roots) == 0 {
+		roots = []*ssa.Function{in.Parent()}
+	}
+	for _, r := range roots {
+		d := deep
+		if r == in.Parent() {
+			d = 0
+		}
+		q := &Query{Target: func(x ssa.Instruction) bool { return x == in }, Block: func(x ssa.Instruction) bool { return x != in && pred(x) }, Deep: d}
+		if q.Search(Entry(r)) != nil {
+			return false
+		}
+	}
+	return true
 }
